@@ -45,15 +45,13 @@ def byte_account_rule(run):
     return enq, deq
 
 
-def check(run):
+def drop_guard_rule(run):
+    """The tail-drop guard has exactly the stated form, including the strictness of the capacity comparison (shared with
+    C06: with >= instead of > a queue that can hold exactly one segment drops every segment and the transfer stalls)."""
     fx = run.fx
     ip = fx.fn1(Q + '::incoming_packet')
-    ns = fx.fn1(Q + '::next_packet_sent')
-    run.touch(ip); run.touch(ns)
-    sub_ip, sub_ns = q.const_local_subst(ip), q.const_local_subst(ns)
-
-    enq, deq = byte_account_rule(run)
-
+    sub_ip = q.const_local_subst(ip)
+    enq = [c for op, c in q.container_calls(ip, 'm_queue', {'push_back'})]
     run.clause('drop guard has exactly the stated form: ok_to_drop(p) && m_max_queue_size > 0 && m_queue_size + measure(p) > m_max_queue_size')
     drops = [f for f in handlers.flows_in(fx, ip) if f.kind == 'invoke' and 'drop_fun' in f.entity]
     if not drops:
@@ -111,6 +109,54 @@ def check(run):
                 run.ok('R5', 'droppable-types', 'packet::type_t::' + e['name'], okd.loc(), 'never put on a route; irrelevant', nontrivial=False)
             else:
                 run.check(val == want, 'R5', 'droppable-types', 'packet::type_t::' + e['name'], okd.loc(), 'ok_to_drop() is %s for %s, the property requires %s' % (val, e['name'], want), 'ok_to_drop() == %s' % want)
+    return drops
+
+
+def check(run):
+    fx = run.fx
+    ip = fx.fn1(Q + '::incoming_packet')
+    ns = fx.fn1(Q + '::next_packet_sent')
+    run.touch(ip); run.touch(ns)
+    sub_ip, sub_ns = q.const_local_subst(ip), q.const_local_subst(ns)
+
+    enq, deq = byte_account_rule(run)
+
+    drops = drop_guard_rule(run)
+
+    run.clause('dropped iff droppable and over capacity, evaluated on the CFG in abstract states: with (droppable, capacity>0, overflow) the enqueue is unreachable whether or not the packet carries a callback; in every other state the drop return is unreachable')
+    def state_val(droppable, cap, over, cb):
+        def val(atom):
+            a = q.strip_casts(atom)
+            if a['k'] in ('un',) or (a['k'] == 'bin' and a['op'] in ('&&', '||')):
+                return None
+            r = q.render(ip, a)
+            if r == 'p.ok_to_drop()':
+                return droppable
+            if r in ('drop_fun', 'p.drop_fun') or r.endswith('.drop_fun'):
+                return cb
+            c = q.cmp_atom(a)
+            if c:
+                lf = q.lin_sub(q.linform(ip, c[1], sub_ip) or ({'?': 1}, 0), q.linform(ip, c[2], sub_ip) or ({'?': 1}, 0))
+                if lf == ({'m_max_queue_size': 1}, 0):
+                    return {'>': cap, '<=': not cap, '!=': cap, '==': not cap}.get(c[0])
+                if lf == ({'m_max_queue_size': -1}, 0):
+                    return {'<': cap, '>=': not cap}.get(c[0])
+                if lf == ({'m_queue_size': 1, 'p.buffer.size()': 1, 'p.overhead': 1, 'm_max_queue_size': -1}, 0):
+                    return {'>': over, '<=': not over}.get(c[0])
+                if lf == ({'m_queue_size': -1, 'p.buffer.size()': -1, 'p.overhead': -1, 'm_max_queue_size': 1}, 0):
+                    return {'<': over, '>=': not over}.get(c[0])
+            return None
+        return val
+    sub_ip = q.const_local_subst(ip)
+    bad_states = []
+    for cb in (True, False):
+        if q.reachable_under(ip, None, enq, state_val(True, True, True, cb)):
+            bad_states.append('droppable, over capacity, %s callback: the packet is still enqueued (the queue grows past its capacity%s)' % ('with' if cb else 'WITHOUT', '' if cb else ' - datagrams, SYNs and injected payload carry no callback'))
+    for st_ in ((False, True, True), (True, False, True), (True, True, False)):
+        ok_reach = q.reachable_under(ip, None, enq, state_val(st_[0], st_[1], st_[2], True))
+        if not ok_reach:
+            bad_states.append('%s, %s, %s: the packet is not enqueued' % ('droppable' if st_[0] else 'not droppable', 'capacity>0' if st_[1] else 'unlimited', 'overflow' if st_[2] else 'fits'))
+    run.check(not bad_states and bool(enq), 'R5', 'drop-iff', ip.norm, ip.loc(), 'the drop decision is not exactly (droppable && capacity>0 && overflow): ' + '; '.join(bad_states), 'enqueue reachable exactly in the states that must not drop')
 
     run.clause('conservation: every path through each sink handles the packet exactly once; the callback leaves the packet only on the drop path')
     # queue::incoming_packet: drop path returns before the enqueue
